@@ -435,6 +435,21 @@ impl Outcome {
         self.res.digest(&mut d);
         d.finish()
     }
+    /// Like `history_digest`, but with unique-id() values (which embed the
+    /// process id) normalised, so that it is a function of the seed alone.
+    pub fn history_digest_stable(&self) -> u64 {
+        let mut d = Digest::new();
+        for e in &self.history {
+            d.str(&format!("{e:?}"));
+        }
+        match &self.res {
+            Res::Ok(s) => {
+                d.str("ok").str(&crate::c03::normalise_ids(s));
+            }
+            r => r.digest(&mut d),
+        }
+        d.finish()
+    }
     /// Canonical identities of the files opened, in order (root excluded).
     pub fn hit_sequence(&self) -> Vec<String> {
         self.history
